@@ -802,6 +802,26 @@ class Normalizer:
 
     _REF_TREES = {}
 
+    def _reference_func(self, func):
+        """The function of the same qualified name in the reference snapshot, or None."""
+        rel = self.rel.split("/")[-1]
+        if rel not in Normalizer._REF_TREES:
+            path = os.path.join(_HERE, "reference", "src", "numbers_parser", rel + ".txt")
+            try:
+                with open(path, encoding="utf-8") as fh:
+                    Normalizer._REF_TREES[rel] = ast.parse(fh.read())
+            except OSError:
+                Normalizer._REF_TREES[rel] = None
+        t = Normalizer._REF_TREES[rel]
+        if t is None:
+            return None
+        if rel not in Normalizer._REF_FUNCS:
+            par = _parents(t)
+            Normalizer._REF_FUNCS[rel] = {_qual(n, par): n for n in ast.walk(t) if isinstance(n, ast.FunctionDef)}
+        return Normalizer._REF_FUNCS[rel].get(_qual(func, self.par))
+
+    _REF_FUNCS = {}
+
     def _reference_walrus_names(self, func):
         """Names bound by assignment expressions in the reference version of ``func`` (those are vocabulary the rules
         know; only assignment expressions that came later are rewritten)."""
@@ -942,6 +962,12 @@ class Normalizer:
                 return node
 
         counter = [0]
+        ref_f = self._reference_func(func)
+        ref_loops = None if ref_f is None else {frozenset(n.id for n in ast.walk(lp.target) if isinstance(n, ast.Name)) for lp in ast.walk(ref_f) if isinstance(lp, ast.For)}
+        if ref_loops is None:
+            ref_loops_known = False
+        else:
+            ref_loops_known = True
 
         def decontinue(body):
             """Body with leading-guard ``continue``s rewritten as conditionals; None if a ``continue`` sits elsewhere."""
@@ -990,7 +1016,8 @@ class Normalizer:
                     continue
                 tnames = [n.id for n in ast.walk(st.target) if isinstance(n, ast.Name)]
                 rows = rows_of(st.iter, st)
-                if rows is None or not tnames or set(tnames) & pinned_locals:
+                # a loop the reference already has (same loop variables) is vocabulary the rules know: left alone
+                if rows is None or not tnames or (ref_loops_known and frozenset(tnames) in ref_loops) or (not ref_loops_known and set(tnames) & pinned_locals):
                     out.append(st)
                     continue
                 # ``if c: continue`` guards at the top of the body become ``if not c: <rest of the body>``
@@ -1011,7 +1038,15 @@ class Normalizer:
                 temps = body_stores - pinned_locals
                 # neither the loop variables nor the temporaries may be read after the loop (anywhere else in the function)
                 inside = {id(n) for b in st.body for n in ast.walk(b)} | {id(n) for n in ast.walk(st.target)}
-                outside_reads = {n.id for n in ast.walk(func) if isinstance(n, ast.Name) and id(n) not in inside and n.id in (set(tnames) | temps)}
+                # (a nested function's own parameter of the same name is another variable)
+                shadowed = set()
+                for d_ in ast.walk(func):
+                    if isinstance(d_, (ast.FunctionDef, ast.Lambda)) and d_ is not func:
+                        ps_ = {a.arg for a in d_.args.args + d_.args.kwonlyargs + d_.args.posonlyargs}
+                        for x_ in ast.walk(d_):
+                            if isinstance(x_, ast.Name) and x_.id in ps_:
+                                shadowed.add(id(x_))
+                outside_reads = {n.id for n in ast.walk(func) if isinstance(n, ast.Name) and id(n) not in inside and id(n) not in shadowed and n.id in (set(tnames) | temps)}
                 if outside_reads:
                     out.append(st)
                     continue
@@ -1212,11 +1247,53 @@ class Normalizer:
         func.end_lineno = counter[0]
 
     # -------------------------------------------------------------- driver
+    def _compiled_patterns(self):
+        """New module-level names bound once to ``re.compile(<constant pattern>[, <flags>])``: name -> (pattern, flags)."""
+        out = {}
+        pinned = _pinned_module(self.rel)
+        for st in self.tree.body:
+            if isinstance(st, ast.Assign) and len(st.targets) == 1 and isinstance(st.targets[0], ast.Name) and st.targets[0].id not in pinned \
+                    and isinstance(st.value, ast.Call) and U(st.value.func) == "re.compile" and 1 <= len(st.value.args) <= 2 and not st.value.keywords:
+                name = st.targets[0].id
+                pat = st.value.args[0]
+                pv = try_const(pat, self.const_env, default=_NO)
+                stores = sum(1 for x in ast.walk(self.tree) if isinstance(x, ast.Name) and x.id == name and isinstance(x.ctx, (ast.Store, ast.Del)))
+                if isinstance(pv, str) and stores == 1:
+                    out[name] = (ast.Constant(pv), st.value.args[1] if len(st.value.args) == 2 else None)
+        return out
+
+    def _inline_compiled_patterns(self, func, pats):
+        """``NAME.sub(r, s)`` -> ``re.sub(<pattern>, r, s)`` (and match / search / fullmatch / findall / finditer / split with the
+        text as only positional argument) for a compiled pattern kept in a new module-level constant."""
+        norm = self
+        local = _local_names(func)
+
+        class T(ast.NodeTransformer):
+            def visit_Call(self, node):
+                self.generic_visit(node)
+                f = node.func
+                if isinstance(f, ast.Attribute) and isinstance(f.value, ast.Name) and f.value.id in pats and f.value.id not in local:
+                    pat, flags = pats[f.value.id]
+                    ok = (f.attr in ("sub", "subn") and 2 <= len(node.args) <= 3) or (f.attr in ("match", "search", "fullmatch", "findall", "finditer", "split") and len(node.args) == 1)
+                    if ok and not any(k.arg in ("pos", "endpos") for k in node.keywords):
+                        kws = list(node.keywords) + ([ast.keyword(arg="flags", value=copy.deepcopy(flags))] if flags is not None else [])
+                        new = ast.Call(func=ast.Attribute(value=ast.Name(id="re", ctx=ast.Load()), attr=f.attr, ctx=ast.Load()),
+                                       args=[copy.deepcopy(pat)] + list(node.args), keywords=kws)
+                        norm.report["constants"].append(f.value.id)
+                        return ast.copy_location(ast.fix_missing_locations(new), node)
+                return node
+
+        for i, b in enumerate(func.body):
+            func.body[i] = T().visit(b)
+
     def run(self):
         tree = self.tree
+        pats = self._compiled_patterns()
         for n in list(ast.walk(tree)):
             if not isinstance(n, ast.FunctionDef):
                 continue
+            if pats:
+                self._inline_compiled_patterns(n, pats)
             q = _qual(n, self.par)
             p = self.par.get(id(n))
             cls_name = None
